@@ -73,7 +73,7 @@ PROJ = {
     'C02': lambda o, before: (o['err'], item_ids_all(o['ro'])),
     'C03': lambda o, before: (o['err'], o['ro']),
     'C04': lambda o, before: (o['err'], o['ro']),
-    'C05': lambda o, before: (o['err'] in ('MosMergeError', 'MosCompletedMergeError'), o['ro'] == before),
+    'C05': lambda o, before: (bool(o['err']), o['ro'] == before),
     'C06': lambda o, before: (o['err'], o['warns'], story_ids(o['ro']), item_ids_all(o['ro'])),
     'C07': lambda o, before: (o['err'] == 'MosCompletedMergeError', completed(o['ro']), o['ro']),
     'C12': lambda o, before: crash_kind(o['err']),
@@ -91,7 +91,7 @@ RELEVANT = {
 }
 
 # extra spec keys evaluated together with the main one
-EXTRA_KEYS = {'C01': ['C01perm'], 'C02': ['C02perm']}
+EXTRA_KEYS = {'C01': ['C01perm'], 'C02': ['C02perm'], 'C05': ['C05any']}
 
 
 def nontrivial(pid, case, o, before):
@@ -126,12 +126,20 @@ def evaluate(pid, cases, oc=None, compare_outside_domain=False):
     from . import lean
     oc = oc or Outcome(pid)
     cases = [c for c in cases if RELEVANT[pid](c['cls'])]
-    texts = [(TJ.to_text(c['ro']), TJ.to_text(c['msg'])) for c in cases]
-    impl_obs = run_impl(texts)
+    texts = [(TJ.to_text(c['ro']), c.get('msg_text') or TJ.to_text(c['msg'])) for c in cases]
+    # cases from live histories carry the implementation's observation already
+    todo = [i for i, c in enumerate(cases) if 'impl' not in c]
+    fresh = run_impl([texts[i] for i in todo])
+    impl_obs = [c.get('impl') for c in cases]
+    for i, o in zip(todo, fresh):
+        impl_obs[i] = o
     reqs = []
     trees = []
-    for (ro_text, msg_text), o in zip(texts, impl_obs):
-        ro_t, msg_t = TJ.parse(ro_text), TJ.parse(msg_text)
+    for c, (ro_text, msg_text), o in zip(cases, texts, impl_obs):
+        if 'impl' in c:
+            ro_t, msg_t = c['ro'], TJ.parse(msg_text)      # the live state itself
+        else:
+            ro_t, msg_t = TJ.parse(ro_text), TJ.parse(msg_text)
         trees.append((ro_t, msg_t))
         r = {'op': 'add', 'ro': ro_t, 'msg': msg_t}
         if 'classify_err' not in o:
@@ -177,6 +185,11 @@ def evaluate(pid, cases, oc=None, compare_outside_domain=False):
                 oc.failing.append(dict(rec, spec=key,
                                        impl={'err': o['err'], 'warns': o['warns'], 'ro_text': TJ.to_text(o['ro'])},
                                        model={'err': model['err'], 'warns': model['warns'], 'ro_text': TJ.to_text(model['ro'])}))
+        if pid == 'C07' and 'completed_attr' in o and o['completed_attr'] != completed(o['ro']):
+            # the `completed` accessor of the live object must agree with the document
+            oc.failing.append(dict(rec, spec='C07 accessor: ro.completed=%r but the document %s a completion record'
+                                   % (o['completed_attr'], 'has' if completed(o['ro']) else 'has no'),
+                                   impl={'err': o['err'], 'warns': o['warns'], 'ro_text': TJ.to_text(o['ro'])}))
         if (dom or pid in ('C05', 'C07')) and nontrivial(pid, c, impl_o, ro_t):
             h = stable_hash([ro_text, msg_text])
             if h not in oc.nontrivial:
